@@ -74,11 +74,11 @@ func c04Body(writer, call int) []byte {
 
 func Verif_C04_concurrent_writers() {
 	verifEngineOnly()
-	W, C, d := 2, 2, 1
+	W, C, d := 2, 2, 2
 	if verifTier() >= 1 {
-		W, C, d = 2, 2, 2
+		W, C, d = 3, 2, 3
 	}
-	verifNote("real peer brought to Established (outbound), then 2 writer goroutines x 2 WriteUpdate calls each with distinct bodies, a WriteUpdate from inside OnEstablished and one from inside the update handler (an inbound UPDATE is delivered), and a keep-alive timer expiry, all concurrent: all schedules with at most 1 (quick) / 2 (thorough) delays (select arms ready together always all explored); then the remote closes; the concatenation of everything written is parsed by a reference framer")
+	verifNote("real peer brought to Established (outbound), then 2 (quick) / 3 (thorough) writer goroutines x 2 WriteUpdate calls each with distinct bodies, a WriteUpdate from inside OnEstablished and one from inside the update handler (an inbound UPDATE is delivered), and a keep-alive timer expiry, all concurrent: all schedules with at most 2 (quick) / 3 (thorough) delays, sleep-set reduced (select arms ready together always all explored); then the remote closes; the concatenation of everything written is parsed by a reference framer")
 	e := newPenv(false)
 	e.pl.writeInEstablished = []byte{0xE0, 0xE0, 0xE0, 0xE0}
 	e.pl.writeInHandler = []byte{0xD0, 0xD0, 0xD0, 0xD0, 0xD0}
@@ -155,11 +155,11 @@ func Verif_C04_concurrent_writers() {
 // WriteUpdate racing with teardown, and a stale writer against the next connection
 func Verif_C04_teardown_and_reconnect() {
 	verifEngineOnly()
-	d := 1
+	d := 2
 	if verifTier() >= 1 {
-		d = 2
+		d = 3
 	}
-	verifNote("Established outbound session; a writer goroutine issues 2 WriteUpdate calls while the remote closes the connection (all schedules within 1/2 delays); then the peer re-dials, a second session is Established, and the stale writer of the first session is used again")
+	verifNote("Established outbound session; a writer goroutine issues 2 WriteUpdate calls while the remote closes the connection (all schedules within 2/3 delays); then the peer re-dials, a second session is Established, and the stale writer of the first session is used again")
 	e := newPenv(false)
 	e.dial.outcomes = []dialOutcome{dialOK, dialOK, dialPendingThenFail}
 	e.p.options.idleHoldTime = 0
